@@ -413,6 +413,8 @@ func zzSeqOnWire13Handshake() {
 			Record:         &recordlayer.RecordLayer{Header: recordlayer.Header{Epoch: e, Version: protocol.Version1_2}, Content: hs},
 			ShouldEncrypt:  true,
 			ShouldTrackACK: true,
+			// the generators set this flag on the first packet of flights 4 and 5; no writer may act on it
+			ResetLocalSequenceNumber: zzsymChoice("reset_flag", 2) == 1,
 		}
 		recs, err := c.processProtectedHandshakePacketTracked(pkt, hs)
 		zzsymAssert(err == nil && len(recs) >= 1, "handshake13_send_ok")
